@@ -52,6 +52,12 @@ def machine : Machine Unit Unit where
       | some f => ((), showRec (decideRec f))
       | none => ((), "bad-op")
     | "mutate" :: _ => ((), "-")
+    | ["sigstruct", scheme, variant, c] =>
+      match bit c with
+      | some c =>
+        let (v, e, r) := sigstructModel scheme variant c
+        ((), unwords ["verify=" ++ b2s v, "env=" ++ (if e then "ok" else "err:sig"), "rec=" ++ (if r then "ok" else "err:payload")])
+      | none => ((), "bad-op")
     | ["sigpayload", d, t, p] =>
       match unhex d, unhex t, unhex p with
       | some d, some t, some p => ((), hex (signaturePayload d t p))
@@ -82,6 +88,14 @@ def machine : Machine Unit Unit where
       match recFacts fl, parseRec r with
       | some f, some r => ((), if specRecord f r then "ok" else "FAIL:record_accept_iff")
       | _, _ => ((), "FAIL:unparsable")
+    | ["sigstruct", scheme, variant, c], [v, e, r] =>
+      match bit c with
+      | some c =>
+        if (v ≠ "verify=1" ∧ v ≠ "verify=0") ∨ !e.startsWith "env=" ∨ !r.startsWith "rec=" then ((), "FAIL:unparsable")
+        else if specSigstruct c (v = "verify=1") (e = "env=ok") (r = "rec=ok") then ((), "ok")
+        else if c then ((), "FAIL:changed_signature_accepted:" ++ scheme ++ "_" ++ variant)
+        else ((), "FAIL:own_signature_rejected")
+      | none => ((), "FAIL:unparsable")
     | ["sigpayload", d, t, p], [bs] =>
       match unhex d, unhex t, unhex p, unhex bs with
       | some d, some t, some p, some bs =>
